@@ -30,7 +30,11 @@ import (
 	"testing"
 	"time"
 
+	"github.com/twmb/franz-go/pkg/kmsg"
+	"go.etcd.io/etcd/api/v3/v3rpc/rpctypes"
 	clientv3 "go.etcd.io/etcd/client/v3"
+	"google.golang.org/grpc/codes"
+	"google.golang.org/grpc/status"
 	"go.etcd.io/etcd/client/v3/concurrency"
 	"pgregory.net/rapid"
 	"verif.local/vfkit"
@@ -110,9 +114,12 @@ type c19World struct {
 	midHook    func() // injected lease loss of the current request, runs once at midTrigger
 	midTrigger string // "upload": inside the first segment upload; "list": inside the S3 listing of a cold partition's restore; "txn": right after an acquire transaction was answered
 	cancelClient context.CancelFunc
+	keepCtx      []context.CancelFunc // request contexts that stay alive until the case ends
 	hookErr  error
 	trace    []string
 
+	acqFault    map[string]error // "topic/partition" -> etcd-side error its lease acquisition meets in this request
+	acqFaultHit map[string]bool
 	store2    *metadata.EtcdStore  // "broker 2's" metadata store, used for topic administration
 	overtook  bool                 // a session loss where an Acquire overtook the session monitor
 	unnoticed *concurrency.Session // ended session the manager had not let go of after 5 s
@@ -301,6 +308,7 @@ type c19Txn struct {
 	clientv3.Txn
 	w      *c19World
 	hasPut bool
+	putKey string // "topic/partition"
 }
 
 func (t *c19Txn) If(cs ...clientv3.Cmp) clientv3.Txn { t.Txn = t.Txn.If(cs...); return t }
@@ -308,6 +316,7 @@ func (t *c19Txn) Then(ops ...clientv3.Op) clientv3.Txn {
 	for _, op := range ops {
 		if op.IsPut() && strings.HasPrefix(string(op.KeyBytes()), metadata.PartitionLeasePrefix()+"/") {
 			t.hasPut = true
+			t.putKey = strings.TrimPrefix(string(op.KeyBytes()), metadata.PartitionLeasePrefix()+"/")
 		}
 	}
 	t.Txn = t.Txn.Then(ops...)
@@ -315,6 +324,17 @@ func (t *c19Txn) Then(ops ...clientv3.Op) clientv3.Txn {
 }
 func (t *c19Txn) Else(ops ...clientv3.Op) clientv3.Txn { t.Txn = t.Txn.Else(ops...); return t }
 func (t *c19Txn) Commit() (*clientv3.TxnResponse, error) {
+	if t.hasPut {
+		t.w.mu.Lock()
+		ferr := t.w.acqFault[t.putKey]
+		if ferr != nil {
+			t.w.acqFaultHit[t.putKey] = true
+		}
+		t.w.mu.Unlock()
+		if ferr != nil {
+			return nil, ferr // etcd-side failure of this acquisition; nothing was written
+		}
+	}
 	resp, err := t.Txn.Commit()
 	if err == nil && resp.Succeeded && t.hasPut {
 		t.w.fire("txn")
@@ -371,6 +391,9 @@ func (w *c19World) close() {
 	}
 	for _, f := range w.foreign {
 		f.ReleaseAll()
+	}
+	for _, c := range w.keepCtx {
+		c()
 	}
 	if w.cancelClient != nil {
 		w.cancelClient()
@@ -524,6 +547,74 @@ type c19Inject struct {
 	Trigger      string
 	Loss         string
 	ForeignTakes bool
+	// Faults: partitions whose lease acquisition fails with an etcd-side error (by class)
+	Faults map[c19Part]string
+	// Disconnect: the request runs under a per-connection context that is cancelled right after
+	// the response (the client goes away)
+	Disconnect bool
+}
+
+// etcd-side failures an acquisition can meet (none of them a client-side deadline)
+func c19FaultErr(class string) error {
+	switch class {
+	case "leader-changed":
+		return rpctypes.ErrLeaderChanged
+	case "lease-not-found":
+		return rpctypes.ErrLeaseNotFound
+	case "unavailable":
+		return status.Error(codes.Unavailable, "etcdserver: no leader")
+	case "too-many-requests":
+		return rpctypes.ErrTooManyRequests
+	}
+	return errors.New("etcdserver: request timed out")
+}
+
+// c19ProduceCtx is vfProduce with a caller-supplied context.
+func c19ProduceCtx(ctx context.Context, h *handler, version int16, acks int16, parts []vfProducePart) ([]vfProduceResult, error) {
+	req := kmsg.NewPtrProduceRequest()
+	req.Version = version
+	req.Acks = acks
+	req.TimeoutMillis = 1000
+	for _, p := range parts {
+		var rt *kmsg.ProduceRequestTopic
+		for i := range req.Topics {
+			if req.Topics[i].Topic == p.Topic {
+				rt = &req.Topics[i]
+			}
+		}
+		if rt == nil {
+			nt := kmsg.NewProduceRequestTopic()
+			nt.Topic = p.Topic
+			req.Topics = append(req.Topics, nt)
+			rt = &req.Topics[len(req.Topics)-1]
+		}
+		np := kmsg.NewProduceRequestTopicPartition()
+		np.Partition = p.Partition
+		np.Records = p.Records
+		rt.Partitions = append(rt.Partitions, np)
+	}
+	cid := "vf-c19"
+	hdr := &protocol.RequestHeader{APIKey: protocol.APIKeyProduce, APIVersion: version, CorrelationID: 7, ClientID: &cid}
+	raw, err := h.Handle(ctx, hdr, req)
+	if err != nil || raw == nil {
+		return nil, err
+	}
+	body, ok := vfSkipRespHeader(raw, version >= 9)
+	if !ok {
+		return nil, fmt.Errorf("vf: cannot skip produce response header")
+	}
+	resp := kmsg.NewPtrProduceResponse()
+	resp.Version = version
+	if err := resp.ReadFrom(body); err != nil {
+		return nil, fmt.Errorf("vf: produce response does not decode: %w", err)
+	}
+	var out []vfProduceResult
+	for _, t := range resp.Topics {
+		for _, p := range t.Partitions {
+			out = append(out, vfProduceResult{Topic: t.Topic, Partition: p.Partition, ErrorCode: p.ErrorCode, Base: p.BaseOffset})
+		}
+	}
+	return out, nil
 }
 
 func (w *c19World) ownsAny() bool {
@@ -620,8 +711,22 @@ func (w *c19World) produce(parts []c19Part, acks int16, inj c19Inject) ([]c19Req
 	for i, p := range parts {
 		in = append(in, vfProducePart{Topic: p.Topic, Partition: p.P, Records: vfkit.SimpleBatch(0, 1000, 1+i%3, fmt.Sprintf("r%d-%s", reqNo, p))})
 	}
-	res, err := vfProduce(w.h, 7, acks, "vf-c19", in)
 	w.mu.Lock()
+	w.acqFault, w.acqFaultHit = map[string]error{}, map[string]bool{}
+	for p, class := range inj.Faults {
+		w.acqFault[p.String()] = c19FaultErr(class)
+	}
+	w.mu.Unlock()
+	rctx, rcancel := context.WithCancel(context.Background())
+	res, err := c19ProduceCtx(rctx, w.h, 7, acks, in)
+	if inj.Disconnect {
+		rcancel()
+	} else {
+		w.keepCtx = append(w.keepCtx, rcancel)
+	}
+	w.mu.Lock()
+	hits := w.acqFaultHit
+	w.acqFault, w.acqFaultHit = nil, nil
 	w.midHook = nil
 	hookErr := w.hookErr
 	w.mu.Unlock()
@@ -682,6 +787,16 @@ func (w *c19World) produce(parts []c19Part, acks int16, inj c19Inject) ([]c19Req
 		return nil, "", err
 	}
 	for _, r := range out {
+		if hits[r.Part.String()] {
+			// (d) the acquisition of this partition's lease failed on the etcd side: the broker does
+			// not hold the lease, so the statement's "otherwise" applies: retriable code, nothing written
+			if r.Written {
+				return out, fmt.Sprintf("request %d: lease acquisition for %s failed (%s) but the handler wrote to S3 under its prefix; trace=%v", reqNo, r.Part, inj.Faults[r.Part], w.trace), nil
+			}
+			if acks != 0 && !c19Retriable[r.Code] {
+				return out, fmt.Sprintf("request %d: lease acquisition for %s failed on the etcd side (%s) and the produce got code %d, which is neither NOT_LEADER_OR_FOLLOWER nor a retriable error; trace=%v", reqNo, r.Part, inj.Faults[r.Part], r.Code, w.trace), nil
+			}
+		}
 		if r.State == "foreign" {
 			// (b) another owner: rejected with NOT_LEADER_OR_FOLLOWER or a retriable error, nothing written
 			if r.Written {
@@ -854,11 +969,29 @@ func TestVF_C19_Produce(t *testing.T) {
 				inj.Trigger = rapid.SampledFrom([]string{"upload", "list", "list", "txn", "txn"}).Draw(rt, "trigger")
 				inj.ForeignTakes = rapid.Bool().Draw(rt, "foreignTakes")
 			}
+			// etcd-side failures during the acquisition of partitions this broker does not hold yet
+			if rapid.IntRange(0, 3).Draw(rt, "acqFaults") == 0 {
+				inj.Faults = map[c19Part]string{}
+				for _, p := range parts {
+					if !w.h.leaseManager.Owns(p.Topic, p.P) && rapid.Bool().Draw(rt, "faultThis") {
+						inj.Faults[p] = rapid.SampledFrom([]string{"leader-changed", "lease-not-found", "unavailable", "too-many-requests", "request-timed-out"}).Draw(rt, "faultClass")
+					}
+				}
+			}
+			inj.Disconnect = rapid.Bool().Draw(rt, "clientDisconnects")
 			if inj.Trigger != "" && known {
 				st.ExcludedCase(c19Finding)
 				inj = c19Inject{}
 			}
 			res, v, err := w.produce(parts, acks, inj)
+			if len(inj.Faults) > 0 {
+				st.Class("etcd-side-fault-during-lease-acquisition")
+				nontrivial = true
+				fpParts = append(fpParts, fmt.Sprintf("faults:%v", inj.Faults))
+			}
+			if inj.Disconnect {
+				st.Class("client-disconnects-after-the-request")
+			}
 			if inj.Trigger != "" && len(w.trace) >= 2 && strings.HasPrefix(w.trace[len(w.trace)-2], "[lease loss") {
 				st.Class("lease-loss-" + inj.Loss + "-at-" + inj.Trigger)
 				nontrivial = true
